@@ -266,8 +266,16 @@ func (f *Folder) eval(fn *ssa.Function, args []cval, depth int) []Outcome {
 // but their current content decides phis and branches, so all known values
 // are included.
 func stateKey(b, pred *ssa.BasicBlock, env fenv) string {
+	live := liveIn(b.Parent())[b]
 	parts := make([]string, 0, len(env))
 	for v, c := range env {
+		// a value that no instruction from b onwards reads cannot influence
+		// the rest of the evaluation: states that differ only there are one
+		// state (a finished counting loop leaves one continuation, not one
+		// per iteration count)
+		if !live[v] {
+			continue
+		}
 		switch {
 		case c.known:
 			parts = append(parts, v.Name()+"="+c.v.ExactString())
@@ -281,6 +289,63 @@ func stateKey(b, pred *ssa.BasicBlock, env fenv) string {
 		pi = pred.Index
 	}
 	return fmt.Sprintf("%d<%d|%s", b.Index, pi, strings.Join(parts, ","))
+}
+
+var liveCache = map[*ssa.Function]map[*ssa.BasicBlock]map[ssa.Value]bool{}
+
+// liveIn: for every block of fn the SSA values that may still be read at its
+// entry or later (classic backward liveness; the operands of a block's phis
+// count as live at the entry of that block, which only keeps more).
+func liveIn(fn *ssa.Function) map[*ssa.BasicBlock]map[ssa.Value]bool {
+	if l, ok := liveCache[fn]; ok {
+		return l
+	}
+	in := map[*ssa.BasicBlock]map[ssa.Value]bool{}
+	use := map[*ssa.BasicBlock]map[ssa.Value]bool{}
+	def := map[*ssa.BasicBlock]map[ssa.Value]bool{}
+	for _, b := range fn.Blocks {
+		u, d := map[ssa.Value]bool{}, map[ssa.Value]bool{}
+		var ops []*ssa.Value
+		for _, instr := range b.Instrs {
+			ops = instr.Operands(ops[:0])
+			_, isPhi := instr.(*ssa.Phi)
+			for _, op := range ops {
+				if op == nil || *op == nil {
+					continue
+				}
+				switch (*op).(type) {
+				case *ssa.Const, *ssa.Function, *ssa.Global, *ssa.Builtin:
+					continue
+				}
+				if isPhi || !d[*op] {
+					u[*op] = true
+				}
+			}
+			if v, ok := instr.(ssa.Value); ok {
+				d[v] = true
+			}
+		}
+		use[b], def[b], in[b] = u, d, map[ssa.Value]bool{}
+		for v := range u {
+			in[b][v] = true
+		}
+	}
+	for changed := true; changed; {
+		changed = false
+		for i := len(fn.Blocks) - 1; i >= 0; i-- {
+			b := fn.Blocks[i]
+			for _, s := range b.Succs {
+				for v := range in[s] {
+					if !def[b][v] && !in[b][v] {
+						in[b][v] = true
+						changed = true
+					}
+				}
+			}
+		}
+	}
+	liveCache[fn] = in
+	return in
 }
 
 func (f *Folder) assume(v ssa.Value) (cval, bool) {
